@@ -46,6 +46,10 @@ CHECKS = {
    "breadth-first search over operation sequences (RevComp, Reverse, Clone, Set, SetOffset, Delete, Append) applied to real sequence objects of every type; snapshot relation checked after every operation, retained clones checked for independence",
    "Every letter string of length <=3 over paired letters (and all built-in complementing alphabets on fixed words), alignment grids up to 3x4, every Multi layout of 1..3 rows with offsets 0..2 and lengths 1..3, Sets; every operation sequence of depth <=3/4 (thorough 4/5) with the reverse-complement relation (letters, qualities, strand, mirrored row coordinates), double application, and every retained clone/original compared after each later mutation.",
    "Column-stored alignments at offset 0; single Reverse checked against its documented meaning; small sizes."),
+ "C07": (E2, "model_checking", "DESIGN.md §3 C07",
+   "breadth-first search over edit sequences applied to real alignment.Seq / alignment.QSeq / multi.Multi containers, grid reference model compared through row view, both column views, extents and count consensus after every edit; retained clones checked for independence; caller buffers overwritten after each append",
+   "Initial grids 1..3 x 1..3 (Multi: every layout of 1..2 rows, thorough 3, offsets 0..2), every edit sequence of depth <=3 (thorough 4) over 16 edits (AppendColumns, AppendEach with unequal runs, Delete, Add, Flush at either end, Truncate, Subseq, Clone, Set).",
+   "Column-stored alignments at offset 0; QSeq.Column compared only at or above the quality threshold; row names of a Subseq result not constrained."),
 }
 PENDING = {}  # id -> reason, for properties not (yet) claimed
 
